@@ -531,6 +531,12 @@ pub fn generate(rng: &mut Rng, profile: &str, index: u64) -> AHistory {
     }
     let deep = profile == "deep" || (profile == "mixed" && index % 10 == 9);
     let target = if deep { 30 + g.rng.below(30) } else { 12 + g.rng.below(50) } as usize;
+    // sometimes the tower sees blocks before its first user
+    if g.rng.chance(1, 4) {
+        for _ in 0..(1 + g.rng.below(3)) {
+            g.connect(true);
+        }
+    }
     g.register();
     while g.steps.len() < target {
         let r = g.rng.below(100);
